@@ -299,8 +299,8 @@ def _yielder_for_nt(source_file, raw_graph, allow_untyped_numbers,
 
 
 def _get_base_zip_archive_if_needed(source_file, list_of_source_files, compression_mode):
-    if compression_mode != ZIP:
-        return None
+    if compression_mode != ZIP or (source_file is None and list_of_source_files is None):
+        return None  # nothing to unzip: the graph is a raw string, an rdflib graph or a remote source
     if source_file is not None:
         return [ZipFile(source_file, 'r')]
     result = []
